@@ -835,6 +835,21 @@ func (env *Env) call(e *Expr) Term {
 			r = app("s.arr", x.S)
 		}
 		return mk(app(">", r, vc.get(env.old, "$alloc")), SBool)
+	case "lastresult":
+		// lastresult(F): ghost - the first result of the latest call of function F (its contract says "records result")
+		if len(e.Args) != 1 || e.Args[0].Op != "ident" {
+			efail("lastresult(FunctionName)")
+		}
+		g := "Gres_" + sanitize(e.Args[0].Name)
+		srt, ok := vc.compSort[g]
+		if !ok {
+			efail("no call of %s recorded here", e.Args[0].Name)
+		}
+		t := mk(vc.get(env.heap(), g), srt)
+		if srt == SIface {
+			t.T = env.resolveType("object.Object")
+		}
+		return t
 	case "nerrs":
 		vc.compDecl("Gerr_n", SInt)
 		return mk(vc.get(env.heap(), "Gerr_n"), SInt).withType(types.Typ[types.Int])
